@@ -56,10 +56,6 @@ pub mod vq_w {
         { unimplemented!() }
     }
 
-    /// A NonZeroU16 is never zero (type invariant of the std type).
-    pub broadcast axiom fn axiom_nonzero(x: NonZeroU16)
-        ensures #[trigger] x.v() != 0;
-
     // ------------------------------------------------------------ Option / slice
     /// Only the shape of the result is specified; nothing is promised about the
     /// referent (the writer never reads a HintPointerVec it is given).
@@ -67,6 +63,8 @@ pub mod vq_w {
         where T: core::ops::DerefMut,
         ensures (r is Some) == (*old(o) is Some);
 
+    /// (The element-wise clause is meant for `Copy` element types -- the writer fills `u8`s --
+    /// where the clone stored equals the value given.)
     pub assume_specification<T> [<[T]>::fill] (s: &mut [T], v: T)
         where T: core::clone::Clone,
         ensures
